@@ -58,12 +58,12 @@ class ExpressionConstraint(ConstraintComponent):
         reports = []
         non_conformant = False
         for n in self.expr_nodes:
-            _n, _r = self._evaluate_expression(data_graph, focus_value_nodes, n)
+            _n, _r = self._evaluate_expression(executor, data_graph, focus_value_nodes, n)
             non_conformant = non_conformant or _n
             reports.extend(_r)
         return (not non_conformant), reports
 
-    def _evaluate_expression(self, data_graph, f_v_dict, expr):
+    def _evaluate_expression(self, executor, data_graph, f_v_dict, expr):
         reports = []
         non_conformant = False
         messages = list(self.shape.sg.objects(expr, SH_message))
@@ -74,7 +74,7 @@ class ExpressionConstraint(ConstraintComponent):
         for f, value_nodes in f_v_dict.items():
             for v in value_nodes:
                 try:
-                    n_set = nodes_from_node_expression(expr, v, data_graph, self.shape.sg)
+                    n_set = nodes_from_node_expression(expr, v, data_graph, self.shape.sg, executor=executor)
                     if (
                         isinstance(n_set, (list, set))
                         and len(n_set) == 1
